@@ -230,7 +230,8 @@ template<typename R, typename... Args> struct Sys {
                 int me = obs; g_calls.push_back(Call{me, show(a...)});
                 if (g_self_invalidate.count(me)) { g_self_invalidate.erase(me); self->invalidate(); }
             };
-            handles[obs].h.emplace(router->template subscribe<Args...>(K.sub_rk(o.arg), cb));
+            // the key object handed to subscribe() is a temporary that dies right after the call: the router must not keep references into it
+            handles[obs].h.emplace(router->template subscribe<Args...>(build_key(U->sub_keys[o.arg]), cb));
             subs.push_back(MSub{obs, o.arg});
             has_subject.insert(all_index(U->sub_keys[o.arg]));
             break;
@@ -251,7 +252,7 @@ template<typename R, typename... Args> struct Sys {
         case SHRINK: {
             int pi = U->shrink_patterns[o.arg]; const Pattern &p = U->patterns[pi];
             std::set<int> before = check ? stored() : std::set<int>();
-            router->shrink(K.pat_rk(pi));
+            router->shrink(build_pattern(U->patterns[pi]));      // a temporary as well
             std::set<int> after = stored();
             for (auto it = has_subject.begin(); it != has_subject.end();) if (!after.count(*it)) it = has_subject.erase(it); else ++it;
             if (!check || !c13) break;      // the removal rules are C13's clauses: not judged by the C06 run (which still compares every delivery after the shrink with the model)
